@@ -167,6 +167,20 @@ def tweak_in_place(obj):
         if names and not names[0].startswith("user_defined"):
             m.controller_midi_maps[names[0]].message_parameter = 0x0102
             done = True
+        # options: multi-bit ones to a value that does NOT cover the bits of the old one, one-bit ones toggled
+        for oname, o in list(getattr(m, "options", {}).items())[:12]:
+            try:
+                cur = int(getattr(m, oname))
+                if o.size > 1:
+                    new = 1 if cur != 1 else 2
+                    if oname == "user_defined_controllers":
+                        new = 2 if cur != 2 else 1
+                    setattr(m, oname, new)
+                elif not getattr(o, "exclusive_of", None):
+                    setattr(m, oname, not cur)
+                done = True
+            except Exception:
+                pass
     return done
 
 
@@ -200,9 +214,14 @@ def case_key(case):
 
 def run_case(case):
     second = case.get("second_save")
-    case = {k: v for k, v in case.items() if k != "second_save"}
+    third = case.get("loaded_then_edited")
+    case = {k: v for k, v in case.items() if k not in ("second_save", "loaded_then_edited")}
     obj = build(case)
-    vs = conformance(obj, case, case_key(case))[0]
+    vs, b0 = conformance(obj, case, case_key(case))
+    if third:
+        o3 = C.load_bytes(b0)
+        tweak_in_place(o3)
+        return conformance(o3, dict(case, loaded_then_edited=True), dict(case_key(case), loaded_then_edited=True))[0]
     if second and tweak_in_place(obj):
         return conformance(obj, dict(case, second_save=True), dict(case_key(case), second_save=True))[0]
     return vs
@@ -254,6 +273,21 @@ def _task(t):
             r["digests"].add(C.h8(b2))
             if len(r["violations"]) < 40:
                 r["violations"] += vs2
+        if (kind == "cases" or (kind == "moddevs" and not k2 and case.get("kind") == "synth" and not case.get("attached"))) and b:
+            # ... and the same for an object that was LOADED from what was written (whatever the reader keeps from the
+            # file -- raw records, unknown bits -- must not leak into the next file after an edit)
+            try:
+                o3 = C.load_bytes(b)
+                if tweak_in_place(o3):
+                    vs3, b3 = conformance(o3, dict(case, loaded_then_edited=True), dict(case_key(case), loaded_then_edited=True))
+                    r["evals"] += 1
+                    C.count(r, "loaded_then_edited")
+                    if len(r["violations"]) < 40:
+                        r["violations"] += vs3
+            except Exception as e:
+                if len(r["violations"]) < 40:
+                    r["violations"].append(C.viol("written-file-not-loadable-or-editable", dict(case_key(case), exc=type(e).__name__),
+                                                  {"error": repr(e)[:200]}, case))
     if cases:
         r["sample"] = cases[-1]
     return r
@@ -309,5 +343,6 @@ def run(ctx):
                 "distinct_nontrivial = distinct written files other than the default one",
         "exhaustive": True, "k": 2 if ctx.thorough else 1,
         "rejected_by_api": agg.counters.get("rejected", 0), "second_saves_after_in_place_edit": agg.counters.get("second_saves", 0),
+        "loaded_then_edited_then_saved": agg.counters.get("loaded_then_edited", 0),
         "samples": agg.samples,
     }
